@@ -54,6 +54,16 @@ CHECKS = {
     text="Reads are rendered by the harness as exact copies of known haplotypes (indels at the normalised position; soft/hard clips, N skips, =/X, mate pairs, unrelated indels) with boundaries at every offset around variant ends; ReadSetReader.read runs in both modes and every (read, variant) pair is classified geometrically (fully covers / no overlap / partial) and the recorded allele compared with the truth.",
     note="Trusted: the read renderer in vlib/genome.py and the geometric definitions of 'fully covers' / 'does not overlap' stated in the evidence assumptions; partial overlaps are not judged.",
     ref="DESIGN.md section 4, C06"),
+ "C02": dict(
+    technique="property-based testing (Hypothesis) of the whole phase pipeline; oracle = the true haplotypes owned by the generator",
+    text="The harness invents a reference, well separated variants of all four types and true haplotypes, renders error-free reads (single/paired, clips, =/X) at depths above and below the coverage cap and runs `whatshap phase` in-process with drawn options; every phase set of the decoded output must equal the true haplotype pair up to a swap of the whole set.",
+    note="Trusted: the read renderer and VCF/BAM writers in vlib/genome.py, pysam for decoding; domain restricted to the default exact algorithm with reference and trusted genotypes.",
+    ref="DESIGN.md section 4, C02"),
+ "C03": dict(
+    technique="property-based testing (Hypothesis) of the phase pipeline with the trace hook; oracle = naive connectivity over the reads handed to the solver",
+    text="Component-shaped read layouts (paired reads with long inserts, N skips, tiny coverage caps, trios with homozygous sites) are phased in-process; the reads given to the solver come from the guarded trace hook (cross-checked with --output-read-list), connectivity is recomputed by naive relabelling and every PS/HP id must be the leftmost position of the component + 1, with the pedigree merge rule applied from the input genotypes.",
+    note="Trusted: the trace hook dumps solver *inputs* faithfully (cross-checked against --output-read-list); trusted-genotype mode only.",
+    ref="DESIGN.md section 4, C03"),
 }
 
 NOT_YET = {}
